@@ -14,7 +14,12 @@ use std::time::{Duration, Instant};
 use crate::engine::verif_dir;
 
 pub fn lace_bin() -> PathBuf {
-    verif_dir().join("sim/target/cli/debug/lace")
+    // The release-profile sample of the thorough tier runs the release binary
+    if cfg!(debug_assertions) {
+        verif_dir().join("sim/target/cli/debug/lace")
+    } else {
+        verif_dir().join("sim/target/cli/release/lace")
+    }
 }
 
 pub fn shim_path() -> PathBuf {
